@@ -956,6 +956,9 @@ func c09TempRoot(rt *rapid.T, pattern string) string {
 	if st, err := os.Stat("/dev/shm"); err == nil && st.IsDir() {
 		base = "/dev/shm"
 	}
+	if d := os.Getenv("VERIF_SCRATCH"); d != "" { // the driver's per-run directory, removed when the run ends
+		base = d
+	}
 	d, err := os.MkdirTemp(base, pattern)
 	if err != nil {
 		rt.Fatalf("harness: tempdir: %v", err)
